@@ -162,7 +162,16 @@ def run_verus_unit(unit, tier, use_cache=True):
             else:
                 ob["status"] = "discharged"
             res["obligations"].append(ob)
-    # rewrites by rule, assumption scan
+    # named lemmas of the preamble (spec-level facts a property needs, e.g. symmetry of the equality relation)
+    for lm in meta.get("lemmas", []):
+        fl = [x for k, v in failed.items() if k[0] == lm["name"] for x in v]
+        ob = {"name": f"{unit}.{lm['name']}.lemma", "unit": unit, "fn": lm["name"], "clause": "lemma", "props": lm["props"], "src": lm["src"],
+              "backend": "verus+z3", "kind": "proof", "solver_s": round(ftime.get(lm["name"], 0.0), 3)}
+        if not decided: ob["status"] = "undecided"
+        elif fl:
+            ob["status"] = "failed"; ob["detail"] = [{"message": x["message"], "site": x["site"], "rendered": x["rendered"]} for x in fl]
+        else: ob["status"] = "discharged"
+        res["obligations"].append(ob)
     by_rule = {}
     for f in meta["functions"]:
         for rw in f["rewrites"]:
@@ -348,7 +357,7 @@ ASSUMPTIONS_COMMON = [
     "Verus 0.2026.09.13 / Z3, rustc 1.98.1, Kani 0.68 / CBMC 6.11, the extractor and this driver are trusted",
     "A-TRAIT: the GarnishData trait contract of units/V1_runtime/preamble.rs holds for the data implementation in use (checked only where units V2 (Basic) and V3 (Simple) say so, clause by clause, by reading the same statement in both files)",
     "A-HOST: host callbacks (resolve/apply/defer_op) obey the documented protocol: accepted => exactly one valid result on the operand stack, declined => operand stack untouched",
-    "A-AXIOMS: Size behaves as nat, Clone is identity, comparison operators implement the spec functions; iterators yield their remaining items in order (next_law); Extents(zero, max_value) selects a whole sequence; equality of Size/Symbol/Char/Byte is structural, of Number numeric; counting up from zero stays a list position and the sum of two list positions is one (is_idx); push_register leaves the value table untouched; the data object's notion of a concatenation's flat item sequence (`concat_flat`) is the one the walker visits (`walk`; proved for SimpleGarnishData in unit V3) (proof fn axioms() / trait clauses)",
+    "A-AXIOMS: Size behaves as nat, Clone is identity, comparison operators implement the spec functions; iterators yield their remaining items in order (next_law); Extents(zero, max_value) selects a whole sequence; equality of Size/Symbol/Char/Byte is structural, of Number numeric and symmetric (K1 proves symmetry for SimpleNumber); counting up from zero stays a list position and the sum of two list positions is one (is_idx); push_register leaves the value table untouched; the data object's notion of a concatenation's flat item sequence (`concat_flat`) is the one the walker visits (`walk`; proved for SimpleGarnishData in unit V3) (proof fn axioms() / trait clauses)",
     "A-64BIT (unit V3): usize is 64 bits wide (`global size_of usize == 8`), as on the shipped targets",
     "A-MEM (unit V2): push_ok_n - the appends a method performs fit the machine (memory is not exhausted within the call)",
     "A-FROM: `?` converting Data::Error into RuntimeError yields err_from(e) with code Unknown (vstd leaves spec_from uninterpreted)",
@@ -363,7 +372,7 @@ NOT_DECIDED = {
     "C08": "two closure statements of type_cast (Concatenation -> List) are cut out and assumed; SimpleGarnishData's own host plumbing (Basic's defer_op is proved to forward once, operands in order)",
     "C09": "f64::powf and f64 % f64 (libm, unmodelled by CBMC); float * and / exactness and in-range float // (tier deep, not registered); integer ** exactness only in the thorough tier",
     "C10": "that `build` places right operands / arms behind the jumps; evaluation counts over whole programs",
-    "C11": "slice operands (frame only); that the data implementations' iterators yield the sequences the trait contract names (proved for SimpleGarnishData's list-item and concatenation iterators asked for everything, unit V3: insertion order / flat item sequence; for BasicGarnishData's list-item, concatenation, char-list and byte-list iterators, unit V2: the requested window in order, the element conversion of the two text iterators and the draining of a list iterator being assumed stand-ins; Basic's symbol-list iterator beyond its window size and Simple's text iterators are assumed); termination of the work list; equivalence-relation laws of the unbounded relation are by reading of `deq`, not a machine-checked lemma",
+    "C11": "slice operands (frame only); that the data implementations' iterators yield the sequences the trait contract names (proved for SimpleGarnishData's list-item and concatenation iterators asked for everything, unit V3: insertion order / flat item sequence; for BasicGarnishData's list-item, concatenation, char-list and byte-list iterators, unit V2: the requested window in order, the element conversion of the two text iterators and the draining of a list iterator being assumed stand-ins; Basic's symbol-list iterator beyond its window size and Simple's text iterators are assumed); termination of the work list; of the equivalence-relation laws of the unbounded relation only symmetry is a machine-checked lemma (`lemma_equality_is_symmetric` over `weq`, given symmetric numeric equality - K1); reflexivity and transitivity are by reading of `deq`",
     "C12": "slices of char/byte lists; chars and bytes are ordered by the data object's own PartialOrd (assumed to be the natural order)",
     "C15": "SimpleGarnishData's interning adders (HashMap + SipHash; symbols, text, byte lists): not claimed; Basic's text/symbol adders and conversions other than add_byte_list_from",
     "C16": "std's sort inside Basic's end_list (the window borrow, count and sort_by are an assumed stand-in; the rest of end_list is proved, Simple's end_list entirely); symbol lookup in a Slice of a Concatenation (assumed stand-in)",
